@@ -272,7 +272,7 @@ let cmd_tree () =
             let p2s = match p2 with
               | T2Ok (roots, ms, ex, enums, cat) ->
                 let pl = match placed_case (List.rev !fs) !root (List.rev !ot) (List.rev !et) (nat_of_int !fuel) with
-                  | Some true -> "true" | Some false -> "false" | None -> "null" in
+                  | Some (true, true) -> "true" | Some (false, _) -> "false" | Some (true, false) -> "\"macro-not-on-top\"" | None -> "null" in
                 Printf.sprintf "\"p2\":\"ok\",\"placed\":%s,%s,\"roots\":%s,\"macros\":%s,\"expanded\":%s,\"enums\":%s" pl (cat_json cat)
                   (jlist (List.map (fun d -> jstr (rdir_str d)) roots))
                   (jlist (List.map (fun m -> jstr (hex_of_bytes m)) ms))
